@@ -133,6 +133,12 @@ func (vc *VC) doCall(fr *frame, st *State, instr ssa.Instruction, c *ssa.CallCom
 			callee = fv.Fn.Fn
 			freeVars = fv.Fn.Bindings
 			vc.pendingRoles = fv.Fn.Roles
+		} else if nt, isNamed := c.Value.Type().(*types.Named); isNamed && nt.Obj().Pkg() != nil && vc.E.DB.Contracts[nt.Obj().Pkg().Path()+".("+nt.Obj().Name()+").call"] != nil {
+			// a value of a named function type with a contract on the type ("func (cb T) call(args)")
+			ct := vc.E.DB.Contracts[nt.Obj().Pkg().Path()+".("+nt.Obj().Name()+").call"]
+			vc.check(st, "nil", fr.prefix+"callfn", "call of nil function value", p.Ne(vc.asInt(fv), p.Int(0)), pos)
+			sig := nt.Underlying().(*types.Signature)
+			return vc.callByContract(fr, st, ct, nil, sig, nt, append([]Val{fv}, args...), rt, pos)
 		} else if key, recv, recvT, ok := vc.funcFieldKey(fr, st, c.Value); ok && vc.E.DB.Contracts[key] != nil {
 			sig := c.Value.Type().Underlying().(*types.Signature)
 			return vc.callByContract(fr, st, vc.E.DB.Contracts[key], nil, sig, recvT, append([]Val{recv}, args...), rt, pos)
@@ -567,6 +573,11 @@ type loc struct {
 func (vc *VC) contractCtx(st, old *State, ct *Contract, fn *ssa.Function, sig *types.Signature, recvT types.Type, args []Val) *evalCtx {
 	c := &evalCtx{vc: vc, st: st, old: old, names: map[string]EV{}, bound: map[string]*Term{}, fn: fn}
 	c.pkg = vc.E.typesPkg(ct.Pkg)
+	if fn != nil && fn == vc.Fn {
+		for k, v := range vc.closureVars {
+			c.names[k] = v
+		}
+	}
 	var names []string
 	var tys []types.Type
 	if fn != nil && len(fn.Params) > 0 {
@@ -673,6 +684,9 @@ func (vc *VC) callByContract(fr *frame, st *State, ct *Contract, fn *ssa.Functio
 					if len(l.idx) == 0 {
 						st.heap[l.key] = vc.heapDefault(old, l.key, srt)
 					}
+				} else if srt, ok := vc.guessKeySort(l.key); ok && len(l.idx) == 0 {
+					// never touched so far: materialise it with its pre-call value so that later joins keep it
+					st.heap[l.key] = vc.heapDefault(old, l.key, srt)
 				} else {
 					// never touched before the call and preserved by it: the entry value stays visible
 					var keep []string
